@@ -121,6 +121,58 @@ impl Gram {
         Some(Gram { start, prods })
     }
 
+    /// Nullable non-terminals (least fixpoint).
+    pub fn nullable(&self) -> std::collections::BTreeSet<usize> {
+        let mut n = std::collections::BTreeSet::new();
+        loop {
+            let before = n.len();
+            for (l, r) in &self.prods {
+                if r.iter().all(|s| matches!(s, Sym::N(a) if n.contains(a))) {
+                    n.insert(*l);
+                }
+            }
+            if n.len() == before {
+                return n;
+            }
+        }
+    }
+
+    /// Is there a non-terminal with A ⇒⁺ A (a cyclic grammar)? Such grammars are infinitely
+    /// ambiguous; parol's LALR(1) path accepts them with resolved conflicts and the generated
+    /// parser can then loop forever (finding F24).
+    pub fn has_cycle(&self) -> bool {
+        let nullable = self.nullable();
+        let nts = self.nts();
+        // unit edges A -> B if A: α B β with α, β nullable
+        let mut edges: std::collections::BTreeSet<(usize, usize)> = Default::default();
+        for (l, r) in &self.prods {
+            for (i, s) in r.iter().enumerate() {
+                if let Sym::N(b) = s {
+                    let rest_nullable = r.iter().enumerate().all(|(j, x)| j == i || matches!(x, Sym::N(a) if nullable.contains(a)));
+                    if rest_nullable {
+                        edges.insert((*l, *b));
+                    }
+                }
+            }
+        }
+        // transitive closure
+        loop {
+            let before = edges.len();
+            let cur: Vec<(usize, usize)> = edges.iter().cloned().collect();
+            for (a, b) in &cur {
+                for (c, d) in &cur {
+                    if b == c {
+                        edges.insert((*a, *d));
+                    }
+                }
+            }
+            if edges.len() == before {
+                break;
+            }
+        }
+        nts.iter().any(|a| edges.contains(&(*a, *a)))
+    }
+
     pub fn nts(&self) -> Vec<usize> {
         let mut v = vec![self.start];
         for (l, r) in &self.prods {
